@@ -33,6 +33,7 @@ const VARIANTS: &[&str] = &[
     "mode_changed",
     "sharding_changed",
     "routing_changed",
+    "roles_swapped",
     "invalid_syntax",
     "invalid_default_role",
     "invalid_default_shard",
@@ -156,6 +157,10 @@ fn scenario(seed: u64, variant: &str, trigger: &str, rep: &Report) -> Result<(),
             if new {
                 cfg.pools[0].shards.push(crate::pgcat::ShardCfg { id: "1".into(), database: "db1".into(), servers: vec![cell.server(a2, "primary")], mirrors: vec![] });
             }
+        } else if variant == "roles_swapped" {
+            // the failover edit: nothing but the roles of the two servers changes
+            cfg.pools[0].shards[0].servers = vec![cell.server(a1, if new { "replica" } else { "primary" }), cell.server(a2, if new { "primary" } else { "replica" })];
+            cfg.pools[0].set("default_role", "\"primary\"");
         } else {
             cfg.pools[0].shards[0].servers.push(cell.server(a2, "replica"));
             cfg.pools[0].set("default_role", "\"primary\"");
@@ -167,7 +172,7 @@ fn scenario(seed: u64, variant: &str, trigger: &str, rep: &Report) -> Result<(),
         }
         cfg
     };
-    let router_variant = variant == "sharding_changed" || variant == "routing_changed";
+    let router_variant = variant == "sharding_changed" || variant == "routing_changed" || variant == "roles_swapped";
     let old = if router_variant { mk_routing(&cell, false) } else { mk(&cell, a1, true, false, 3, "transaction", 60, auto) };
     cell.start_pgcat(&old, &StartOpts::default()).map_err(|e| format!("start: {:?}", e))?;
     let port = cell.pg().port;
@@ -180,7 +185,7 @@ fn scenario(seed: u64, variant: &str, trigger: &str, rep: &Report) -> Result<(),
         "pool_removed" => mk(&cell, a1, false, false, 3, "transaction", 60, auto).to_toml(port),
         "user_changed" => mk(&cell, a1, true, false, 5, "transaction", 60, auto).to_toml(port),
         "mode_changed" => mk(&cell, a1, true, false, 3, "session", 60, auto).to_toml(port),
-        "sharding_changed" | "routing_changed" => mk_routing(&cell, true).to_toml(port),
+        "sharding_changed" | "routing_changed" | "roles_swapped" => mk_routing(&cell, true).to_toml(port),
         "invalid_syntax" => format!("{}\n[pools.pa\nthis is = not toml", old_toml),
         "invalid_default_role" => mk(&cell, a2, true, false, 3, "transaction", 60, auto).to_toml(port).replacen("default_role = \"any\"", "default_role = \"bogus\"", 1),
         // one past the last shard: pa has exactly one shard (shard_0)
@@ -410,6 +415,7 @@ fn scenario(seed: u64, variant: &str, trigger: &str, rep: &Report) -> Result<(),
         match (variant, pool) {
             ("servers_changed", "pa") => Ok("pa.g2"),
             ("routing_changed", "pa") => Ok("pa.g2"),
+            ("roles_swapped", "pa") => Ok("pa.g2"),
             ("pool_removed", "pb") => Err("No pool configured"),
             (_, "pa") => Ok("pa.g1"),
             (_, "pb") => Ok("pb.g1"),
@@ -504,7 +510,7 @@ pub fn run(tier: &str) -> i32 {
         "C14",
         tier,
         "exploration",
-        "scenario = old/new config pair from {unchanged, general-only change, servers changed, pool added, pool removed, user changed, mode changed, syntactically invalid, 4 semantically invalid} x trigger {admin RELOAD, SIGHUP, autoreload} with looping clients on every pool, a transaction straddling the reload per pool and a late client of the added pool; each pool generation has its own labelled mocks; oracle = label of the mock serving each tagged statement relative to the reload's end (RELOAD reply / reload.end hook event), session close events of unchanged pools, SHOW CONFIG / SHOW DATABASES before/after for invalid files; distinct = (variant, trigger) pairs",
+        "scenario = old/new config pair from {unchanged, general-only change, servers changed, pool added, pool removed, user changed, mode changed, shard count changed, parser/read-write-splitting flags changed, only the roles of two servers swapped, syntactically invalid, 4 semantically invalid} x trigger {admin RELOAD, SIGHUP, autoreload} with looping clients on every pool, a transaction straddling the reload per pool and a late client of the added pool; each pool generation has its own labelled mocks; oracle = label of the mock serving each tagged statement relative to the reload's end (RELOAD reply / reload.end hook event), session close events of unchanged pools, SHOW CONFIG / SHOW DATABASES before/after for invalid files; distinct = (variant, trigger) pairs",
     );
     rep.assume("validate_config = false in generated files (a valid file naming unreachable servers is outside the property)");
     let thorough = rep.thorough();
